@@ -26,9 +26,185 @@ def model_to_dict(m, limit=60):
     return out
 
 
+def _has_quantifier(t, cache):
+    i = t.get_id()
+    if i in cache:
+        return cache[i]
+    stack, seen, found = [t], set(), False
+    while stack:
+        x = stack.pop()
+        if x.get_id() in seen:
+            continue
+        seen.add(x.get_id())
+        if z3.is_quantifier(x):
+            found = True
+            break
+        stack.extend(x.children())
+    cache[i] = found
+    return found
+
+
+def _split_and(t):
+    if z3.is_and(t):
+        out = []
+        for c in t.children():
+            out += _split_and(c)
+        return out
+    return [t]
+
+
+def _array_constants(formulas):
+    out, seen = {}, set()
+    stack = list(formulas)
+    while stack:
+        x = stack.pop()
+        if x.get_id() in seen:
+            continue
+        seen.add(x.get_id())
+        if z3.is_quantifier(x):
+            stack.append(x.body())
+            continue
+        if z3.is_app(x):
+            if x.num_args() == 0 and x.decl().kind() == z3.Z3_OP_UNINTERPRETED and x.sort().kind() == z3.Z3_ARRAY_SORT:
+                out[x.decl().name()] = x
+            stack.extend(x.children())
+    return list(out.values())
+
+
+def _index_terms(formulas):
+    """Ground terms used as array indices (select / store), by sort."""
+    by_sort, seen = {}, set()
+    stack = [(f, False) for f in formulas]
+    while stack:
+        x, bound = stack.pop()
+        if (x.get_id(), bound) in seen:
+            continue
+        seen.add((x.get_id(), bound))
+        if z3.is_quantifier(x):
+            continue                    # only ground occurrences
+        if z3.is_app(x):
+            k = x.decl().kind()
+            if k in (z3.Z3_OP_SELECT, z3.Z3_OP_STORE):
+                t = x.arg(1)
+                by_sort.setdefault(t.sort().name() + str(t.sort().get_id()), {})[t.get_id()] = t
+            stack.extend((c, bound) for c in x.children())
+    return {k: list(v.values()) for k, v in by_sort.items()}
+
+
+def _finitize(arrays, formulas, depth=0):
+    idx = _index_terms(formulas)
+    out = []
+
+    def finite(a, lvl):
+        dom, rng = a.sort().domain(), a.sort().range()
+        d = z3.FreshConst(rng, 'dflt')
+        chain = z3.K(dom, d)
+        for t in idx.get(dom.name() + str(dom.get_id()), [])[:40]:
+            v = z3.FreshConst(rng, 'cell')
+            chain = z3.Store(chain, t, v)
+            if rng.kind() == z3.Z3_ARRAY_SORT and lvl < 1:
+                finite(v, lvl + 1)
+        out.append(a == chain)
+        if rng.kind() == z3.Z3_ARRAY_SORT and lvl < 1:
+            finite(d, lvl + 1)
+    for a in arrays:
+        finite(a, 0)
+    return out
+
+
+def finite_model_search(pc, goal, extra=(), rounds=25, budget_s=20):
+    """Model-based instantiation by hand, for goals that z3 leaves `unknown` under a quantified path
+    condition (DESIGN 2.10).  Solve the quantifier-free part of (pc and not goal) together with the
+    instances collected so far; evaluate every universally quantified conjunct in the model found and ask
+    for a falsifying witness; add that instance and repeat.
+      unsat  -> the goal follows from a SUBSET of consequences of pc: proved (sound);
+      a model in which every conjunct of pc, quantified ones included, has been validated and the goal is
+      false -> a genuine countermodel: refuted (sound);
+      anything else (budget, a validation query that is itself undecided) -> None.
+    Returns (verdict, model, backend) or None."""
+    t0 = time.time()
+    cache = {}
+    conj = []
+    for c in list(extra) + list(pc) + [z3.Not(goal)]:
+        conj += _split_and(c)
+    qf = [c for c in conj if not _has_quantifier(c, cache)]
+    quant = [c for c in conj if _has_quantifier(c, cache)]
+    foralls = [c for c in quant if z3.is_quantifier(c) and c.is_forall()]
+    other = [c for c in quant if not (z3.is_quantifier(c) and c.is_forall())]
+    insts = []
+    arrays = _array_constants(conj)
+    for rnd in range(rounds):
+        left = budget_s - (time.time() - t0)
+        if left <= 0:
+            return None
+        s = z3.Solver()
+        s.set('timeout', int(max(200, min(left, 5) * 1000)))
+        for c in qf + other + insts:
+            s.add(c)
+        r = s.check()
+        if r == z3.unsat:
+            return 'proved', None, 'z3 (manual instantiation, %d instances)' % len(insts)
+        if r != z3.sat:
+            return None
+        # look for a FINITE countermodel first: every array is a default value overwritten at the index terms
+        # that occur in the ground formulas (a restriction of the search space only -- the model found is
+        # validated below like any other); without it the solver keeps inventing fresh rows
+        sf = z3.Solver()                 # a fresh solver: the incremental mode is markedly weaker here
+        sf.set('timeout', int(max(200, min(left, 5) * 1000)))
+        for c in qf + other + insts + _finitize(arrays, qf + other + insts):
+            sf.add(c)
+        m = sf.model() if sf.check() == z3.sat else s.model()
+        bad = 0
+        for q in foralls:
+            # the conjunct under the model's interpretation of every symbol; its own bound variables stay
+            # bound (model completion must not touch them), so it is a closed formula
+            v = m.eval(q, model_completion=True)
+            if z3.is_true(v):
+                continue
+            # a falsifying witness: the body on fresh constants, symbols the model fixes replaced by their
+            # values (no completion here: the fresh constants must stay free; any witness gives a sound instance)
+            cs = [z3.FreshConst(q.var_sort(i), 'w') for i in range(q.num_vars())]
+            ev = m.eval(z3.substitute_vars(q.body(), *reversed(cs)), model_completion=False)
+            s2 = z3.Solver()
+            s2.set('timeout', 3000)
+            s2.add(z3.Not(ev))
+            r2 = s2.check()
+            if r2 == z3.sat:
+                m2 = s2.model()
+                ws = [m2.eval(c, model_completion=True) for c in cs]
+                insts.append(z3.substitute_vars(q.body(), *reversed(ws)))
+                bad += 1
+                continue
+            # no witness: accept the conjunct only if its completed evaluation is provably true
+            s3 = z3.Solver()
+            s3.set('timeout', 3000)
+            s3.add(z3.Not(v))
+            if s3.check() != z3.unsat:
+                return None
+        if bad:
+            continue
+        for c in other:         # quantified conjuncts of another shape: must hold in the model as well
+            s2 = z3.Solver()
+            s2.set('timeout', 3000)
+            s2.add(z3.Not(m.eval(c, model_completion=True)))
+            if s2.check() != z3.unsat:
+                return None
+        return 'refuted', m, 'z3 (finite countermodel validated against every quantified assumption, %d instances)' % len(insts)
+    return None
+
+
+_cegar_hits = [2 if os.environ.get('VERIF_CEGAR_FIRST') else 0]      # the variable is for the self-test of the search (DESIGN 2.11)
+
+
 def prove(pc, goal, timeout_ms=None, extra=()):
     """Validity of (and pc) => goal.  Returns (verdict, model|None, ms, backend)."""
     t0 = time.time()
+    if _cegar_hits[0] >= 2:
+        # this worker already found genuine countermodels: on such a tree most failing obligations are
+        # decided in milliseconds by the finite-model search, so try it before the 10 s solver budget
+        r0 = finite_model_search(pc, goal, extra, rounds=8, budget_s=3)
+        if r0 is not None and r0[0] == 'refuted':
+            return 'refuted', r0[1], int((time.time() - t0) * 1000), r0[2]
     s = z3.Solver()
     s.set('timeout', timeout_ms or QUERY_TIMEOUT_MS)
     for a in extra:
@@ -42,6 +218,15 @@ def prove(pc, goal, timeout_ms=None, extra=()):
         return 'proved', None, ms, 'z3'
     if r == z3.sat:
         return 'refuted', s.model(), ms, 'z3'
+    fm = None
+    try:
+        fm = finite_model_search(pc, goal, extra)
+    except z3.Z3Exception:
+        fm = None
+    if fm is not None:
+        if fm[0] == 'refuted':
+            _cegar_hits[0] += 1
+        return fm[0], fm[1], int((time.time() - t0) * 1000), fm[2]
     # second opinion from cvc5 on z3's unknown
     v = cvc5_decide(s)
     ms = int((time.time() - t0) * 1000)
